@@ -103,7 +103,10 @@ def grep_gate():
 def coq_make(targets, timeout=900, jobs=8):
     """make the given .vo targets (paths relative to coq/)."""
     with Lock("coq"):
-        if not os.path.exists(os.path.join(COQ, "Makefile")):
+        mk = os.path.join(COQ, "Makefile")
+        cp = os.path.join(COQ, "_CoqProject")
+        if (not os.path.exists(mk)
+                or os.path.getmtime(cp) > os.path.getmtime(mk)):
             sh("coq_makefile -f _CoqProject -o Makefile", cwd=COQ)
         rc, out = sh(["timeout", str(timeout), "make", "-j", str(jobs)]
                      + list(targets), timeout=timeout + 30, cwd=COQ)
